@@ -11,7 +11,7 @@ META = dict(
     level='proof',
     technique='Lean 4 model of AccountDB/accountObject/journal + undo-inverse induction; T-corr op scripts incl. hidden-state dump',
     level_text='machine-checked proof about an executable model, tied to the source by differential execution',
-    level_note='observations restored: full strength; root restored: partial + counterexamples (see known findings)',
+    level_note='observations restored: every op but GetCommittedState (4 ops under decidable side conditions); root restored: only for regions that do not touch account objects, otherwise refuted (known findings)',
     trusted_base=['Lean 4 kernel', 'Go harness harness/cmd/c04 and hook verif_c04_dump.go', 'trie root = f(content) (property C02)',
                   'Keccak / SHA3 (code hash, balance slot key are inputs of the model)',
                   '18-decimal conversions are the identity on the amounts used (property C18)'],
